@@ -185,10 +185,32 @@ static void observe(const char* label, const Node& n)
                join(v1.fired).c_str(), join(v2.fired).c_str(), join(view1).c_str(), join(view2).c_str());
 }
 
+// view<K> asked through the STATIC type the factory handed out (an implementation class, or an interface more derived than Node) must
+// answer what it answers through `const Node&`.  Asked for K = the leaf interface of that static type (one instantiation per call
+// site; asking all ~160 K per site makes this translation unit take twenty minutes to compile).  A disagreement is an `sview` line.
+template<class K, class S> void static_view(const char* label, const S& s)
+{
+   if constexpr (LeafNode<K> && HasHook<K> && std::is_base_of_v<ipr::Node, S>) {
+      if constexpr (requires { util::view<K>(s); }) {
+         const K* through_static = util::view<K>(s);
+         const K* through_node = util::view<K>(static_cast<const Node&>(s));
+         if (static_cast<const void*>(through_static) != static_cast<const void*>(through_node))
+            std::printf("sview\t%s\tcls=%s\tK=%d\tstatic=%d\tnode=%d\n", label, demangle(typeid(s).name()).c_str(),
+                        static_cast<int>(static_cast<const Node&>(s).category), through_static != nullptr ? 1 : 0, through_node != nullptr ? 1 : 0);
+      }
+   }
+}
+
+template<class S> void static_views(const char* label, const S& s)
+{
+   if constexpr (requires { typename S::Interface; }) static_view<typename S::Interface>(label, s);
+   else if constexpr (LeafNode<S>) static_view<S>(label, s);
+}
+
 template<class T> void obs(const char* label, const T& r)
 {
-   if constexpr (std::is_pointer_v<T>) observe(label, *r);
-   else observe(label, r);
+   if constexpr (std::is_pointer_v<T>) { observe(label, *r); static_views(label, *r); }
+   else { observe(label, r); static_views(label, r); }
 }
 
 // ---- static facts --------------------------------------------------------------------------------------------------
